@@ -120,6 +120,16 @@ def numeric_leaves(rep, T, I, rng, quick):
                     rep.violation("steam_vs_iapws:%g-%g" % (lo, hi), "N_steam_agrees_with_IAPWS97",
                                   {"t": t, "p": p, "ifc67": [d1, u1], "iapws97": [d2, u2], "tolerance": [td, tu]})
                     break
+    # steam ON the saturation line of either formulation (the higher of the two saturation pressures): both routines answer
+    for lo, hi, td, tu in [(0.01, 100, 6e-4, 1700.0), (100, 250, 2.3e-3, 3400.0), (250, 340, 2.8e-3, 9000.0)]:
+        for t in np.linspace(lo, hi, 4 * n):
+            p = max(T.sat(t), I.sat(t))
+            a, b = T.supst(t, p), I.supst(t, p)
+            rep.case(None)
+            if b is None or b[0] is None or abs(a[0] - b[0]) > td * b[0] or abs(a[1] - b[1]) > tu:
+                rep.violation("steam_on_saturation_line:%g-%g" % (lo, hi), "N_steam_agrees_with_IAPWS97",
+                              {"t": t, "p": p, "ifc67": list(a), "iapws97": None if b is None else list(b)})
+                break
     # the two IAPWS-97 routines called alternately at one temperature (nothing may be carried over from one to the other)
     for t in list(np.linspace(5.0, 340.0, n)) + [rng.uniform(0.01, 340.0) for _ in range(n)]:
         ps = max(T.sat(t), I.sat(t))
